@@ -1898,6 +1898,18 @@ fn history(family: &str, seed: u64, idx: usize, thorough: bool, out: &mut impl W
                     c.s.trace.push(json!({"ev":"left","peer":x}));
                     c.lockstep(3);
                     c.s.trace.push(json!({"ev":"epoch","writer":w,"absent":x}));
+                    // one time in three the absent client's application keeps working: it writes a component of an entity it
+                    // holds, in one or several frames, while its link is down (recorded finding D22)
+                    if c.rng.chance(1, 3) && !c.live.is_empty() {
+                        let hh = *c.rng.pick(&c.live.clone());
+                        let ty = *c.rng.pick(&[Ty::A, Ty::B, Ty::E]);
+                        for _ in 0..c.rng.range(1, 3) {
+                            let v = small_val(&mut c.rng, ty);
+                            c.s.write(x, hh, &v, &[]);
+                            c.s.step(x);
+                        }
+                        c.s.trace.push(json!({"ev":"away_write","peer":x,"h":hh,"ty":ty.name()}));
+                    }
                     for _ in 0..c.rng.range(1, 5) {
                         op(&mut c, w, &mut assets);
                         if c.rng.chance(1, 2) {
